@@ -133,7 +133,10 @@ theorem stepDen_children (root : Node) (strict : Bool) (s : Step) (hd : s.down =
     simp only [stepDen, Except.ok.injEq] at h
     exact ⟨_, option_toList_pairwise _, h.symm⟩
   | slice a b c =>
-    simp only [stepDen, Except.ok.injEq] at h
+    simp only [stepDen] at h
+    split at h
+    · simp at h
+    simp only [Except.ok.injEq] at h
     refine ⟨_, pySlice_ascending _ a b (Step.stride c) ?_, h.symm⟩
     match c, ha with
     | none, _ => simp [Step.stride]
